@@ -13,7 +13,9 @@ Clauses (one mechanism-key family each):
                out of the run-level statistics); per run the median chi-squared / parameter error are <= MED_CHI_TOL /
                MED_PAR_TOL and >= MIN_CONVERGED of the fits meet the design's 1e-8 / 1e-3 (see the tolerance block).
   bounds       every value of result.circuit lies within [lower, upper] of the same parameter of the circuit that was
-               passed in (exact comparison).
+               passed in (exact comparison; the table is tied to the circuit by the table clause).  Every item has at least
+               one box that excludes the unconstrained optimum, incl. boxes [lo, 0.0], [lo, -0.0], [-inf, 0.0], [0.0, hi],
+               [0.0, inf] on the leading resistance with the optimum on the far side of 0.0.
   fixed        parameters marked fixed in the circuit passed in are bit-identical in result.circuit.
   fixed flags  the fixed flags of result.circuit, of result.parameters and the Fixed column of the dataframe equal the flags
                of the circuit passed in (a released default-fixed parameter stays released); parameters that carry a
@@ -58,7 +60,8 @@ RULE = (
     "default limit box are excluded from the standard range and judged under a separate key in the wide range. "
     "Invariant items: 17 circuit shapes (2..14 elements, incl. labels, Tlmbq/Tlmnq/Ls whose parameter symbols contain '_', W/Wo/Ws/"
     "Zarc/La/Tlm), per-parameter limit boxes {class default, tight around start, excluding the optimum, one-sided, above/"
-    "below the class defaults}, boundary cases (fixed and free start values exactly on a user or class-default limit, e.g. n=1, R=0, "
+    "below the class defaults, edges that are exactly 0.0 / -0.0 / one-sided infinite on a resistance whose optimum lies beyond the 0.0 "
+    "edge}; every item carries at least one box that excludes the optimum (active limit); boundary cases (fixed and free start values exactly on a user or class-default limit, e.g. n=1, R=0, "
     "L=0, n=0.5 in [0.5, 1]), random fixed subsets, 0-1% noise, one (method, weight) cell per fit cycling through all "
     "9x4 cells (plus method/weight lists and pool runs, max_nfev in {unlimited, 40, 400}), optional constraint expressions of 6 "
     "kinds (incl. auxiliary variables named like <name>_<element index>). A fit is non-trivial "
@@ -356,6 +359,7 @@ def _gen_inv_item(rng, cell_index):
     kinds = []
     n_free = 0
     us = shp in _UNDERSCORE_SHAPES
+    zero_leaf = None
     for i, leaf in enumerate(sl):
         for name, p in leaf[2].items():
             t = float(tl[i][2][name][0])
@@ -376,6 +380,22 @@ def _gen_inv_item(rng, cell_index):
             if constrained == (i, name):
                 p[:] = [float(t * 10.0 ** rng.uniform(-0.4, 0.4)), "default", "default", False]
                 kinds.append("constrained")
+                continue
+            if leaf[1] == "R" and i == 0 and start[0] == "S" and source != (i, name) and rng.random() < 0.25:
+                # limit boxes with a 'special' edge (0.0, -0.0, one side infinite) on a resistance that may be negative once its
+                # lower limit is moved; the generating value lies beyond the 0.0 edge, so that edge is the active limit
+                zk = str(rng.choice(["zero-upper", "negzero-upper", "inf-zero-upper", "zero-lower", "zero-lower-inf"]))
+                a = abs(t)
+                if zk.endswith("upper"):  # optimum (+a) above the box [lo, 0]
+                    lo = None if zk == "inf-zero-upper" else -a * 10.0 ** rng.uniform(0.5, 1.5)
+                    p[:] = [float(-a * 10.0 ** rng.uniform(-1.5, 0.0)), lo, -0.0 if zk == "negzero-upper" else 0.0, False]
+                else:  # generating value flipped to -a: optimum below the box [0, hi]
+                    tl[i][2][name][0] = -a
+                    hi = None if zk == "zero-lower-inf" else a * 10.0 ** rng.uniform(0.0, 1.0)
+                    p[:] = [float(a * 10.0 ** rng.uniform(-1.5, -0.1)), 0.0, hi, False]
+                kinds.append(zk)
+                zero_leaf = (i, name)
+                n_free += 1
                 continue
             s, lo, hi, kind = _box(rng, leaf[1], name, t, default_fixed)
             while source == (i, name) and kind not in _source_kinds(leaf[1], name):
@@ -407,7 +427,27 @@ def _gen_inv_item(rng, cell_index):
             if leaf[1] != "Tlm":
                 next(iter(leaf[2].values()))[3] = False
                 break
-    _edges(rng, start, sl, kinds, {constrained, source})
+    _ACTIVE = ("excl", "zero-upper", "negzero-upper", "inf-zero-upper", "zero-lower", "zero-lower-inf")
+    k = 0
+    flat = []
+    for i, leaf in enumerate(sl):
+        for name, p in leaf[2].items():
+            flat.append((i, name, k, leaf, p))
+            k += 1
+    if not any(kinds[k] in _ACTIVE and not p[3] for i, name, k, leaf, p in flat):
+        # limit-respect needs an ACTIVE limit: give one free, plain parameter a box that excludes its generating value
+        cands = [(i, name, k, leaf, p) for i, name, k, leaf, p in flat if not p[3] and name not in _EXPONENTS and (i, name) not in (constrained, source)
+                 and kinds[k] in ("default", "tight", "lower-only", "upper-only", "unbounded") and leaf[1] not in ("Tlm", "Tlmbq", "Tlmnq") and p[0] > 0]
+        if cands:
+            i, name, k, leaf, p = cands[int(rng.integers(len(cands)))]
+            t = float(tl[i][2][name][0])
+            if rng.random() < 0.5:
+                lo, hi = t * 10.0 ** rng.uniform(0.1, 0.5), t * 10.0 ** rng.uniform(0.6, 1.5)
+            else:
+                lo, hi = t * 10.0 ** -rng.uniform(0.6, 1.5), t * 10.0 ** -rng.uniform(0.1, 0.5)
+            p[:] = [float(lo * (hi / lo) ** rng.uniform(0.1, 0.9)), lo, hi, False]
+            kinds[k] = "excl"
+    _edges(rng, start, sl, kinds, {constrained, source, zero_leaf})
     labels = []
     if rng.random() < 0.3:
         pool = [str(x) for x in rng.permutation(_LABELS)]
@@ -587,9 +627,16 @@ def check_fit(item):
                 kind = item["box_kinds"][n_params - 1] if len(item.get("box_kinds") or []) >= n_params else "default"
                 bad(f"C12/out-of-bounds:{kind}", f"{sym}.{name}={float(v)!r} outside [{lo[name]!r}, {hi[name]!r}] (start {v0!r}, fixed={fx[name]})")
             else:
-                span = abs(v) * 1e-9 + 1e-300
-                if abs(v - lo[name]) <= span or abs(v - hi[name]) <= span:
+                span = max(abs(v), abs(float(v0))) * 1e-9 + 1e-300
+                at_lo, at_hi = abs(v - lo[name]) <= span, abs(v - hi[name]) <= span
+                if at_lo or at_hi:
                     n_active += 1
+                if not fx[name] and (lo[name] == 0.0 or hi[name] == 0.0) and float(v0) != 0.0 and (sym, name) == ("R", "R"):
+                    side = "upper" if hi[name] == 0.0 else "lower"
+                    if side == "upper" or float(v0) > 0 and "zero-lower" in "".join(item.get("box_kinds") or []):
+                        bump("zero_limit_checked:" + side)
+                        if (at_hi if side == "upper" else at_lo):
+                            bump("zero_limit_active:" + side)
             if float(v0) == lo[name] or float(v0) == hi[name]:  # boundary case: the start value sits exactly on one of its limits
                 edge = "lower" if float(v0) == lo[name] else "upper"
                 bump("fixed_on_limit" if fx[name] else "free_on_limit")
@@ -614,6 +661,7 @@ def check_fit(item):
     bump("underscore_symbol_params_checked", sum(1 for st_ in in_state for k in st_[1] if "_" in k))
     bump("released_default_fixed", n_released)
     bump("params_at_bound", n_active)
+    bump("fits_with_active_limit", 1 if n_active else 0)
     # ---- table == circuit
     names = []
     mism = 0
@@ -803,7 +851,7 @@ def finalize(agg):
     if dead:
         inc.append(f"(method, weight) cells that never returned a result: {dead}")
     for name in ("params_fixed_checked", "params_at_bound", "constraints_checked", "table_values_checked", "untouched_checked",
-                 "fixed_flags_checked", "table_fixed_flags_checked", "released_default_fixed", "underscore_symbol_params_checked", "fixed_on_limit", "fixed_on_limit:lower", "fixed_on_limit:upper", "fixed_on_class_default_limit", "free_on_limit"):
+                 "fixed_flags_checked", "table_fixed_flags_checked", "released_default_fixed", "underscore_symbol_params_checked", "zero_limit_checked:upper", "zero_limit_active:upper", "zero_limit_checked:lower", "zero_limit_active:lower", "fixed_on_limit", "fixed_on_limit:lower", "fixed_on_limit:upper", "fixed_on_class_default_limit", "free_on_limit"):
         if st.get(name, 0) == 0:
             inc.append(f"{name} == 0: the clause was never exercised")
     rec_all = [r for a in agg["aggs"] for r in (a or [])]
